@@ -203,23 +203,26 @@ Definition enc_check (c : enc_case) : bool :=
   | CRound e static root m floats inner pf pt strict out back xcheck aback rep hoist =>
       (* the shared-holder oneof shape: the theorem's deciders on the hoisted environment, and the
          models run on the hoisted environment against the real codec's document and decoded message *)
-      Bool.eqb (negb (env_static_ok e) &&
-                (let e' := hoist_env e in
-                 env_static_ok e' &&
-                 rep_root_b (inner_table inner) print (any_back_table aback) e' (S (pval_depth (VMsg m))) root m &&
-                 match encode (float_table floats) (inner_table inner) e' root m with
-                 | Ok b =>
-                     (if strict then bytes_eqb b out
-                      else match strict_parse b, strict_parse out with
-                           | Some x, Some y => jv_eq_perm (S (length out)) x y
-                           | _, _ => false
-                           end) &&
-                     match decode_text (dec_scalar (float_parse_table pf) (table_get pt)) (any_back_table aback) e' root out, back with
-                     | Ok m', Some mb => msg_eqb m' mb
-                     | _, _ => false
-                     end
-                 | _ => false
-                 end)) hoist &&
+      (let e' := hoist_env e in
+       let pre := negb (env_static_ok e) && env_static_ok e' &&
+                  rep_root_b (inner_table inner) print (any_back_table aback) e' (S (pval_depth (VMsg m))) root m in
+       let agree := match encode (float_table floats) (inner_table inner) e' root m with
+                    | Ok b =>
+                        (if strict then bytes_eqb b out
+                         else match strict_parse b, strict_parse out with
+                              | Some x, Some y => jv_eq_perm (S (length out)) x y
+                              | _, _ => false
+                              end) &&
+                        match decode_text (dec_scalar (float_parse_table pf) (table_get pt)) (any_back_table aback) e' root out, back with
+                        | Ok m', Some mb => msg_eqb m' mb
+                        | _, _ => false
+                        end
+                    | _ => false
+                    end in
+       Bool.eqb (pre && agree) hoist &&
+       (* inside the preconditions the models on the hoisted view reproduce the real codec EXACTLY on the
+          messages in which every existing holder has a populated member (holders_have_members_b) *)
+       (negb pre || negb (is_some back) || Bool.eqb agree (holders_have_members_b e root m))) &&
       (* the harness states whether the environment is inside the theorem's static hypotheses
          (it knows one shape that is not); the decider must agree *)
       Bool.eqb (env_static_ok e) static &&
